@@ -63,8 +63,8 @@ Definition step_node (hist : list N) (s : mstate) (q : bool) (g : game) (p : nat
 
 Definition step (hist : list N) (s : mstate) (e : cev) : mstate :=
   match e with
-  | ENode _ _ q g p _ _ _ _ _ _ _ => step_node hist s q g p
-  | ERepHit _ _ =>
+  | ENode q g p _ _ _ _ _ _ _ => step_node hist s q g p
+  | ERepHit =>
     if negb (pending s =? 0) then mkM (stack s) 0 (N.succ (idx s)) (bad06 s) (bad06v s) (bad07m s) (bad07f s)
     else
       let ok := match stack s with
@@ -72,7 +72,7 @@ Definition step (hist : list N) (s : mstate) (e : cev) : mstate :=
                 | [] => false
                 end in
       mkM (stack s) 0 (N.succ (idx s)) (bad06 s) (bad06v s) (bad07m s) (if ok then bad07f s else first_bad (bad07f s) (idx s))
-  | EVerdict _ _ mate p =>
+  | EVerdict mate p =>
     let bad07m' := if pending s =? 0 then bad07m s else first_bad (bad07m s) (pending s) in
     let ok := match pop_deeper (stack s) p with
               | f :: _ => Nat.eqb (f_ply f) p &&
@@ -94,16 +94,16 @@ Definition mon_nodes (hist : list N) (tr : list cev) : mstate :=
 Fixpoint mon_frame (tr : list cev) (stopped : bool) (i : N) : N :=
   match tr with
   | [] => 0
-  | EStopRaised _ _ :: r => mon_frame r true (N.succ i)
-  | EPV _ _ _ _ :: r => if stopped then i else mon_frame r stopped (N.succ i)
-  | ETTRec _ _ _ _ _ _ _ :: r => if stopped then i else mon_frame r stopped (N.succ i)
+  | EStopRaised :: r => mon_frame r true (N.succ i)
+  | EPV _ _ :: r => if stopped then i else mon_frame r stopped (N.succ i)
+  | ETTRec _ _ _ _ _ :: r => if stopped then i else mon_frame r stopped (N.succ i)
   | _ :: r => mon_frame r stopped (N.succ i)
   end.
 Fixpoint mon_cadence (tr : list cev) (last_poll : N) (i : N) : N :=
   match tr with
   | [] => 0
-  | EPoll _ _ _ n _ :: r => mon_cadence r n (N.succ i)
-  | ENode _ _ _ _ _ _ _ _ n _ _ _ :: r => if n <=? last_poll + INPUT_POLL_INTERVAL + 1 then mon_cadence r last_poll (N.succ i) else i
+  | EPoll _ n _ :: r => mon_cadence r n (N.succ i)
+  | ENode _ _ _ _ _ _ n _ _ _ :: r => if n <=? last_poll + INPUT_POLL_INTERVAL + 1 then mon_cadence r last_poll (N.succ i) else i
   | _ :: r => mon_cadence r last_poll (N.succ i)
   end.
 
